@@ -143,10 +143,12 @@ def wEntry (S : Sys) (op : Op) (i j : Nat) : Rat :=
   | .N | .J => (S.W[S.permR.getD i 0]!)[S.permC.getD j 0]!
   | .T | .C => (S.W[S.permR.getD j 0]!)[S.permC.getD i 0]!
 
-/-- first violated residual clause for the operator `op`, `none` when X solves both systems -/
-def residual (S : Sys) (op : Op) : Option String × Bool := Id.run do
+/-- first violated residual clause for the operator `op` (`none` when X solves both systems); also
+returns: some row needed the reported backward error; every residual is exactly zero -/
+def residual (S : Sys) (op : Op) : Option String × Bool × Bool := Id.run do
   let n := S.n
   let mut viaBerr := false
+  let mut allZero := true
   let g1e := gam S.eps (4 * n + 6) * S.cm; let g2e := gam S.eps (n + 1) * S.cm
   let g1o := gam S.eps (4 * n + 10) * S.cm; let g2o := gam S.eps (n + 3) * S.cm
   for r in List.range S.nrhs do
@@ -177,11 +179,12 @@ def residual (S : Sys) (op : Op) : Option String × Bool := Id.run do
       let okEr := S.refineOn && decide (re ≤ bw)
       let okOr := S.refineOn && decide (ro * s ≤ bw + 4 * S.eps * S.cm * (dsum + qabs be) + S.tiny * s)
       if ¬ (okO ∨ okOr) then
-        return (some s!"residual of equation {i}, right-hand side {r} of the ORIGINAL system exceeds the factor-derived bound", viaBerr)
+        return (some s!"residual of equation {i}, right-hand side {r} of the ORIGINAL system exceeds the factor-derived bound", viaBerr, false)
       if ¬ (okE ∨ okEr) then
-        return (some s!"residual of equation {i}, right-hand side {r} of the equilibrated system exceeds the factor-derived bound", viaBerr)
+        return (some s!"residual of equation {i}, right-hand side {r} of the equilibrated system exceeds the factor-derived bound", viaBerr, false)
       if ¬ okO ∨ ¬ okE then viaBerr := true
-  return (none, viaBerr)
+      if ro ≠ 0 ∨ re ≠ 0 then allZero := false
+  return (none, viaBerr, allZero)
 
 def dense (n : Nat) (colptr rowind : Array Nat) (val : Array Q) : Array (Array Q) :=
   let A : CSC Q := { m := n, n := n, colptr := colptr, rowind := rowind, val := val }
@@ -247,12 +250,13 @@ def handle (c : Case) : Res := Id.run do
                       B0 := b0, B1 := b1, X := x, sB := sB, sX := sX, W := W, permC := permCi.map Int.toNat, permR := permRi.map Int.toNat,
                       berr := berr, refineOn := o.refine, eps := epsOf c, cm := if c.isComplex then 4 else 1,
                       tiny := if c.isDouble then pow2 (-1060) else pow2 (-140) }
-  let (rm, viaBerr) := residual S (docOp o)
+  let (rm, viaBerr, allZero) := residual S (docOp o)
   if let some m := rm then
     if docOp o == .J ∧ (residual S (implOp o)).1.isNone then return Res.propFalse knownMsg tags0
     return Res.propFalse m tags0
   if let some m := cf then return Res.corr m tags0
   let tags := tags0 ++ [if !o.refine then "bound=factors" else if viaBerr then "bound=berr" else "bound=factors-refined"]
-  return Res.ok (n ≥ 2) tags (if c.p "val" == "dyadic-lu" then "robust" else "tolerance")
+  -- class: `exact` = X solves the original and the equilibrated system with zero residual
+  return Res.ok (n ≥ 2) tags (if allZero then "exact" else "tolerance")
 
 end Slu.Drv.Gssvx
